@@ -72,6 +72,11 @@ class Search
 
     void stop();
 
+    /**
+     * @brief Checks whether the searchmoves restriction (if any) allows move.
+     */
+    bool allows_root_move(Move move) const;
+
   private:
     void init_search();
 
